@@ -232,8 +232,8 @@ COMMENT_ONLY = {'kthlist': 'c nothing here\nc at all\n', 'gml': '# nothing\n',
 BINARY = b'\xff\xfe\x00\x9f p cnf \xc3\x28 1 2\n'
 GARBAGE = 'this is ( not a graph ]] 1 : : 0\n{ -- -> e 1 x\np\n'
 FILE_KINDS = ['missing', 'empty', 'comments', 'trunc', 'garbage', 'valid',
-              'dir', 'unread', 'binary']
-STDIN_KINDS = ['empty', 'comments', 'trunc', 'garbage', 'valid', 'binary']
+              'dir', 'unread', 'binary', 'airy', 'crlf']
+STDIN_KINDS = ['empty', 'comments', 'trunc', 'garbage', 'valid', 'binary', 'airy', 'crlf']
 
 
 def _trunc(text):
@@ -252,6 +252,18 @@ def _content(kind, valid, ext):
         return GARBAGE
     if kind == 'valid':
         return valid
+    if kind == 'airy':
+        # the valid content laid out with blank and white-space-only lines and
+        # trailing blanks (legal or not, the tool must not crash on it)
+        lines = valid.split('\n')
+        out = ['', '   ']
+        for ln in lines:
+            out.append(ln + '  ' if ln else ln)
+            out.append('')
+            out.append(' \t ')
+        return '\n'.join(out) + '\n\n'
+    if kind == 'crlf':
+        return valid.replace('\n', '\r\n')
     if kind == 'binary':
         return BINARY
     raise KeyError(kind)
